@@ -10,7 +10,7 @@ def run(chk):
     # RejectsInvalid, MegaIdentity), with non-vacuity probes
     vlib.protocol_mc(chk)
     depth = 3 if q else 4
-    behs = vlib.generate_behaviours(chk, depth, rich=True, name="rich")
+    behs = vlib.generate_behaviours(chk, depth, rich=True, name="rich", maxdev=2)
     bad = [b for b in behs if b["expect_v"] == "reject"]
     chk.sample({"tlc_behaviour": bad[len(bad) // 2]})
     extra = []
@@ -55,7 +55,7 @@ def run(chk):
             chk.cov.setdefault("lucky_accepts_explained", 0)
             chk.cov["lucky_accepts_explained"] += 1
     chk.finish(
-        rule="TLC (MC_Builder, Rich) enumerates every program of at most %d calls with exactly one deviation - a constraint off by a non-zero "
+        rule="TLC (MC_Builder, Rich) enumerates every program of at most %d calls with one or two deviations - a constraint off by +1 or -1 "
              "constant (every position, both phases, constant-only / committed-only / multiplier constraints) or a gate whose output is "
              "overwritten through the guarded hook (first and last gate, both phases); DeviationIffUnsatisfied is model-checked; each is replayed on "
              "secq256k1, zorro, curve25519 and must be rejected. Random bad-witness programs on toy31723 are validated by TLC (IdealSoundness), "
